@@ -81,12 +81,16 @@ type mg struct {
 	bigMax int  // upper bound for the (rare) large field
 	bigs   int  // large fields still allowed in this message
 	feat   map[string]struct{}
+	budget int // message nodes still allowed (bounds the size of recursive types)
 	// summary of what the generated message tree contains
 	oneofsSet, optSet int
 }
 
 func newMG(r *rand.Rand, rich bool, bigMax int) *mg {
-	g := &mg{r: r, rich: rich, bigMax: bigMax, feat: map[string]struct{}{}}
+	g := &mg{r: r, rich: rich, bigMax: bigMax, feat: map[string]struct{}{}, budget: 250}
+	if rich {
+		g.budget = 500
+	}
 	if r.Intn(60) == 0 {
 		g.bigs = 1
 	}
@@ -103,9 +107,10 @@ func (g *mg) gen(mt protoreflect.MessageType) proto.Message {
 }
 
 func (g *mg) fill(m protoreflect.Message, depth int) {
-	if depth > maxDepth {
+	if depth > maxDepth || g.budget <= 0 {
 		return
 	}
+	g.budget--
 	md := m.Descriptor()
 	for i := 0; i < md.Oneofs().Len(); i++ {
 		oo := md.Oneofs().Get(i)
@@ -201,7 +206,13 @@ func (g *mg) setSingular(m protoreflect.Message, fd protoreflect.FieldDescriptor
 
 func (g *mg) listLen(depth int, msgElems bool) int {
 	if g.rich {
+		if depth > 0 {
+			return 1 + g.r.Intn(4)
+		}
 		return 3 + g.r.Intn(10)
+	}
+	if depth > 1 {
+		return g.r.Intn(4)
 	}
 	x := g.r.Intn(100)
 	switch {
@@ -215,14 +226,18 @@ func (g *mg) listLen(depth int, msgElems bool) int {
 		return 6 + g.r.Intn(35)
 	default:
 		g.note("list:long")
-		return 200 + g.r.Intn(1800)
+		n := 200 + g.r.Intn(1800)
+		if msgElems {
+			g.budget += n
+		}
+		return n
 	}
 }
 
 func (g *mg) fillList(m protoreflect.Message, fd protoreflect.FieldDescriptor, depth int) {
 	isMsg := fd.Kind() == protoreflect.MessageKind || fd.Kind() == protoreflect.GroupKind
 	n := g.listLen(depth, isMsg)
-	if depth >= maxDepth && isMsg {
+	if isMsg && (depth >= maxDepth || g.budget <= 0) {
 		n = 0
 	}
 	if n == 0 {
